@@ -6,11 +6,11 @@ from vfw import build, irparse, rsym
 import z3
 
 _modcache = {}
-def ir_module(ctx, wrapper, defines=(), opt='-O1', want=None):
+def ir_module(ctx, wrapper, defines=(), opt='-O1', want=None, flags=()):
     """IR text is compiled once in prepare() (parent) and parsed lazily in the child"""
-    key = 'ir:%s:%s:%s' % (wrapper, ','.join(defines), opt)
+    key = 'ir:%s:%s:%s:%s' % (wrapper, ','.join(defines), opt, ' '.join(flags))
     if key not in ctx:
-        ctx[key] = build.compile_ir(build.wrapper(wrapper), defines=defines, opt=opt)
+        ctx[key] = build.compile_ir(build.wrapper(wrapper), defines=defines, opt=opt, flags=flags)
     k2 = (key, id(want))
     if k2 not in _modcache:
         _modcache[k2] = irparse.parse_module(ctx[key], want=want)
